@@ -1392,6 +1392,15 @@ func cmdFilters(args []string) int {
 		if n := len(hr.Res); n > 0 && hr.Res[n-1].Panic != "" {
 			continue // the known revert panic leaves the stack unusable
 		}
+		nok := 0
+		for _, x := range hr.Res {
+			if x.Class == "none" {
+				nok++
+			}
+		}
+		if nok < 4 {
+			continue // too few entities for a filter to discriminate
+		}
 		store, _, err := hr.St.Driver.OpenLedger(ctx, "l1")
 		must(err)
 		out.Stats["histories"]++
@@ -1413,9 +1422,30 @@ func cmdFilters(args []string) int {
 				out.Stats["skipped_unfiltered_read_failed"]++
 				continue
 			}
-			addrs := append([]string{}, fltAccounts...)
+			// addresses present in the entity table (plus, rarely, any address of the alphabet), so that address leaves hit
+			var addrs []string
+			for _, e := range ents {
+				if e.Addr != "" {
+					addrs = append(addrs, e.Addr)
+				}
+				addrs = append(append(addrs, e.Srcs...), e.Dsts...)
+			}
+			addrs = uniq(append(addrs, Pick(rr, fltAccounts)))
 			g := &fltGen{r: rr, res: c.Res, ents: ents, addrs: addrs, odd: odd, maxDep: maxDep}
-			c.F = g.node(0)
+			// input shaping: up to 4 draws, keep the first filter selecting neither nothing nor everything (reference meaning)
+			for try := 0; try < 4; try++ {
+				c.F = g.node(0)
+				nsel := 0
+				for _, e := range ents {
+					if refSat(c.Res, c.F, e) {
+						nsel++
+					}
+				}
+				if nsel > 0 && nsel < len(ents) {
+					break
+				}
+				out.Stats["redrawn"]++
+			}
 			fltCheck(out, hr, store, c, seen)
 		}
 	}
